@@ -245,9 +245,12 @@ class MetadataManager:
                 # references the winner's content.
                 metadata_file = self._new_metadata_filename(next_version)
                 metadata_path = f"{self.metadata_path}/{metadata_file}"
-                self._write_metadata_file(metadata_path, new_metadata)
 
                 try:
+                    # Inside the try: on object storage a failed PUT may have
+                    # landed, and the file must not stay behind (see the handler).
+                    self._write_metadata_file(metadata_path, new_metadata)
+
                     # PHASE 3.5: Fencing - re-validate lock ownership immediately
                     # before the commit point. A holder whose lease was broken (e.g.
                     # after a long pause) must not flip the hint.
